@@ -518,9 +518,14 @@ class World:
         self.refs.clear()
 
 
+class _StrMixinEnum(str, enum.Enum):
+    """Members compare and hash as their string values (what enum.StrEnum does)."""
+
+
 def define_enum(spec: dict, world: World):
     members = {n: dec(v) for (n, v) in spec['members']}
-    e = enum.Enum(spec.get('pyname') or spec['name'], members, module='simworld')
+    base = {'int': enum.IntEnum, 'str': _StrMixinEnum}.get(spec.get('kind'), enum.Enum)
+    e = base(spec.get('pyname') or spec['name'], members, module='simworld')
     world.enums[spec['name']] = e
     world.enum_specs[spec['name']] = spec
     return e
@@ -1056,6 +1061,9 @@ def _gen_type(rng, world: World, kinds, scalars, depth=0, max_depth=3, top=True,
     if k in ('tuple', 'ttuple'):
         return [k] + [sub() for _ in range(rng.choice([1, 2, 2, 3]))]
     if k in ('dict', 'tdict', 'tmap', 'odict'):
+        if rng.random() < 0.15 and 'float' in scalars:
+            # keys that are not strings or ints (JSON cannot hold them; YAML keeps their type)
+            return [k, rng.choice([['s', 'float'], ['opt', ['s', 'str']], ['s', 'bool']]), sub()]
         return [k, ['s', rng.choice([s for s in scalars if s in ('str', 'int')] or ['str'])], sub()]
     if k == 'union':
         if rng.random() < 0.35:
@@ -1193,6 +1201,8 @@ def gen_enum_spec(rng, name):
     spec = {'name': name, 'members': members}
     if rng.random() < 0.4:
         spec['pyname'] = rng.choice(['Mode', 'Mode', 'Kind'])      # different enums of a run may share their Python name
+    if kind in ('int', 'str') and rng.random() < 0.35:
+        spec['kind'] = kind         # IntEnum / str-mixin enum: members compare and hash as their values, across classes
     return spec
 
 
